@@ -431,7 +431,9 @@ def _guards(ctx, P):
     seen = []
 
     def m_grid_interp(ev, args, kw, node):
-        seen.append((list(args), dict(kw)))
+        b = dict(zip(["self", "da", "axis"], args))  # Grid.interp(self, da, axis, **kwargs), by position or by keyword
+        b.update(kw)
+        seen.append(([b.get("self"), b.get("da"), b.get("axis")], {k: v for k, v in b.items() if k not in ("self", "da", "axis")}))
         return make_da("td_on_outer", [Sym("t"), dimsym("AZ", "outer")], name=Sym("tdn"))
 
     cons = []
